@@ -47,6 +47,87 @@ func GuardsAt(b *ssa.BasicBlock) []Guard {
 	return out
 }
 
+var cameDepth int
+
+// cameThrough: the guard `φ == nil` / `φ != nil` (with truth value pol) where only one incoming
+// edge of φ can carry such a value — control came along that edge. Returns the phi, the index
+// of the edge and the predecessor block.
+func cameThrough(cond ssa.Value, pol bool) (*ssa.Phi, int, bool) {
+	for {
+		if u, ok := cond.(*ssa.UnOp); ok && u.Op == token.NOT {
+			cond, pol = u.X, !pol
+			continue
+		}
+		break
+	}
+	bo, ok := cond.(*ssa.BinOp)
+	if !ok || (bo.Op != token.EQL && bo.Op != token.NEQ) || !isNilConst(bo.Y) {
+		return nil, 0, false
+	}
+	ph, ok := bo.X.(*ssa.Phi)
+	if !ok {
+		return nil, 0, false
+	}
+	wantNil := (bo.Op == token.EQL) == pol
+	cand, n := -1, 0
+	// an edge value is also known (non-)nil when the guards of the edge it arrives on say so
+	edgeKnows := func(i int, lit string) bool {
+		if cameDepth > 2 {
+			return false
+		}
+		cameDepth++
+		defer func() { cameDepth-- }()
+		pred := ph.Block().Preds[i]
+		if HoldsAt(pred, lit) {
+			return true
+		}
+		if ifi, isIf := pred.Instrs[len(pred.Instrs)-1].(*ssa.If); isIf && pred.Succs[0] != pred.Succs[1] {
+			return Lit(ifi.Cond, pred.Succs[0] == ph.Block()) == lit
+		}
+		return false
+	}
+	for i, e := range ph.Edges {
+		if wantNil && (definitelyNonNil(e) || (!isNilConst(e) && edgeKnows(i, Term(e)+" != nil"))) {
+			continue
+		}
+		if !wantNil && (isNilConst(e) || edgeKnows(i, Term(e)+" == nil")) {
+			continue
+		}
+		cand = i
+		n++
+	}
+	if n != 1 {
+		return nil, 0, false
+	}
+	return ph, cand, true
+}
+
+// resolveUnderGuards: v is a phi merged in the same block as an error phi that a guard
+// dominating `at` pins to one incoming edge (`if err != nil { return }` after an inlined
+// helper): v has the value of that edge.
+func resolveUnderGuards(v ssa.Value, at *ssa.BasicBlock) ssa.Value {
+	for i := 0; i < 4; i++ {
+		ph, ok := v.(*ssa.Phi)
+		if !ok {
+			return v
+		}
+		changed := false
+		for _, g := range GuardsAt(at) {
+			if ep, k, ok := cameThrough(g.Cond, g.Pol); ok && ep.Block() == ph.Block() && ep != ph && k < len(ph.Edges) {
+				v = ph.Edges[k]
+				changed = true
+				break
+			}
+		}
+		if !changed {
+			return v
+		}
+	}
+	return v
+}
+
+var guardLitsDepth int
+
 // GuardLits returns GuardsAt as canonical literal strings; boolean phis that merely carry the
 // result of a short-circuit expression are expanded (see expandBoolPhi).
 func GuardLits(b *ssa.BasicBlock) []string {
@@ -58,6 +139,18 @@ func GuardLits(b *ssa.BasicBlock) []string {
 		}
 		if call, neg := predCall(g.Cond); call != nil {
 			out = append(out, predImplied(call, g.Pol != neg)...)
+		}
+		// control came along one edge of an error phi: what held there holds here
+		if ph, k, ok := cameThrough(g.Cond, g.Pol); ok && guardLitsDepth < 4 {
+			guardLitsDepth++
+			pred := ph.Block().Preds[k]
+			out = append(out, GuardLits(pred)...)
+			if ifi, isIf := pred.Instrs[len(pred.Instrs)-1].(*ssa.If); isIf && pred.Succs[0] != pred.Succs[1] {
+				side := pred.Succs[0] == ph.Block()
+				out = append(out, Lit(ifi.Cond, side))
+				out = append(out, expandBoolPhi(ifi.Cond, side)...)
+			}
+			guardLitsDepth--
 		}
 	}
 	return out
